@@ -23,6 +23,14 @@ CHECKS["C10"] = dict(
     technique="exhaustive small-scope enumeration of expression trees on the real printer/parser/generator, structural comparison via CPython ast",
 )
 
+CHECKS["C20"] = dict(
+    category="model_checking",
+    text="The real Name::is_superset_of is evaluated for ALL ordered pairs of a finite type universe built through the public API on a real Context (every non-generic class of the default context, a user hierarchy with a diamond and exceptions, all nullable variants, all two-member unions over 14 core names, unions with None, List/Set/Collection/Tuple/Dict instantiations of depth 1 (quick) / 2 (thorough), nullable generics, function types for reflexivity). On the resulting bit matrix reflexivity, transitivity (all triples), Any-top, the three nullable rules, union-accepts-members and union-iff-members (against every type) are checked exhaustively; the nominal fragment is compared with an independently computed ancestor closure; union commutativity/associativity/idempotence is checked up to mutual assignability; the whole matrix is recomputed under 6 (24) owned hash seeds and must be bit-identical. End-to-end, `def x: U := v` with `v: T` must be accepted by the full pipeline iff the matrix says T <= U.",
+    design_ref="DESIGN.md §4 C20",
+    note="states = types, transitions = real is_superset_of evaluations (every one is a call of the implementation, so model = code). An Err answer counts as 'not assignable'. T? -> Any is not judged end-to-end (not stated by the property). Seeds are owned via the LD_PRELOAD getrandom shim.",
+    technique="exhaustive finite-universe exploration of the real relation (all pairs, all triples on the matrix) under enumerated hash seeds",
+)
+
 REASON_PENDING = "check not built yet in this session (see DESIGN.md Appendix D build order); nothing is claimed for it"
 
 
